@@ -33,6 +33,12 @@ template<typename T> async<T> chain(future<T> &f, promise<T> &p, suspend_point<b
   co_await parallel(f);
   co_return std::move(b);
 }
+void use_parallel_resume(promise<int> &p) {
+  // resuming the prepared coroutines in another thread while the attached value stays with the caller (bool, class-type and void payloads)
+  { bool ok = parallel_resume(p(1)); (void)ok; }
+  { suspend_point<Counted> s(suspend_point<void>(), Counted(1)); Counted m = parallel_resume(std::move(s)); (void)m; }
+  { suspend_point<void> s; parallel_resume(std::move(s)); }
+}
 void use_async(promise<int> &p, future<int> &f) {
   leaf<int>(1).detach(); { auto s = leaf<int>(1).detach(); s.clear(); }
   { auto a = leaf<int>(2); future<int> r = a.start(); r.wait(); }
